@@ -343,6 +343,7 @@ int main(int argc, char **argv)
 		if (!strcmp(tokv[0], "CASE")) { base_live = vf_live_blocks; n_tri_viol = 0; ob_printf(&out, "C %s\n", nt > 1 ? tokv[1] : "?"); flush_out(); continue; }
 		if (!strcmp(tokv[0], "END")) { ob_printf(&out, "E live=%ld bad=%ld\n", vf_live_blocks - base_live, vf_bad_frees); flush_out(); continue; }
 		vf_progress++;
+		vf_ambient_errno();
 		if (!strcmp(tokv[0], "X")) cmd_split(nt, tokv);
 		else if (!strcmp(tokv[0], "T")) cmd_stream(nt, tokv);
 		else if (!strcmp(tokv[0], "R")) cmd_reset(nt, tokv);
